@@ -7,6 +7,7 @@
   IEEE doubles enter only through the correspondence check.
 -/
 import SkyllhModel.Model.Grid
+import SkyllhModel.Model.GridObj
 import SkyllhModel.Generated.C15
 import Mathlib.Tactic
 import Mathlib.Data.Rat.Floor
@@ -1788,3 +1789,396 @@ example : parValue (1 : ℚ) 1 0 1 4 (3 / 2) = 9 / 4 ∧ parGrad (1 : ℚ) 1 0 1
   norm_num [parValue, parGrad, parA, parB]
 
 end examples
+
+/-! # Deepening round: the glue around the core (`Model/GridObj.lean`) -/
+
+section nostate
+variable {F : Type} [Add F] [Sub F] [Mul F] [Div F] [LT F] [DecidableLT F] [RoundOps F]
+  [OfNat F 1] [OfNat F 2] [BEq F]
+
+/-- **without a trial-data state id nothing is ever taken from a cache** (`trial_data_state_id is
+None`): whatever the cache holds — no invariant needed — both methods answer like a fresh object. -/
+theorem c15_no_state_id_never_cached (G : PGrid F) (Mf : Option Int → List F → List F) (ns : List Nat)
+    (lc : Option (LinCache F)) (pc : Option (ParCache F)) (xs : List F) :
+    (linCall G Mf ns lc none xs).2 = linSpec G Mf ns none xs ∧
+      (parCall G Mf ns pc none xs).2 = parSpec G Mf ns none xs := by
+  constructor
+  · unfold linCall linSpec
+    simp only []
+    cases lc with
+    | none => cases linCompute G Mf ns none xs <;> rfl
+    | some c =>
+      simp only [Option.isSome_none, Bool.false_eq_true, false_and, if_false]
+      cases linCompute G Mf ns none xs <;> rfl
+  · unfold parCall parSpec
+    simp only []
+    cases broadcast (List.zipWith (· - ·) xs (xs.map (roundNearest G))) ns with
+    | none => rfl
+    | some t =>
+      cases pc with
+      | none => cases parCompute G Mf ns none xs <;> rfl
+      | some c =>
+        simp only [Option.isSome_none, Bool.false_eq_true, false_and, if_false]
+        cases parCompute G Mf ns none xs <;> rfl
+
+end nostate
+
+/-! ## Irregular grid: constructor check, extension, checked lower rounding, array arguments -/
+
+namespace C15
+section irrdeep
+variable {F : Type} [LinearOrder F]
+
+theorem strictlyIncreasing_iff (l : List F) : strictlyIncreasing l = true ↔ l.Pairwise (· < ·) := by
+  induction l with
+  | nil => simp [strictlyIncreasing]
+  | cons a t ih =>
+    cases t with
+    | nil => simp [strictlyIncreasing]
+    | cons b t' =>
+      simp only [strictlyIncreasing, Bool.and_eq_true, decide_eq_true_eq, ih]
+      constructor
+      · rintro ⟨hab, ht⟩
+        rw [List.pairwise_cons]
+        refine ⟨?_, ht⟩
+        intro x hx
+        rcases List.mem_cons.mp hx with rfl | hx
+        · exact hab
+        · exact lt_trans hab ((List.pairwise_cons.mp ht).1 x hx)
+      · intro h
+        rw [List.pairwise_cons] at h
+        exact ⟨h.1 b (by simp), h.2⟩
+
+theorem optAll_eq_some {α : Type} (l : List (Option α)) (r : List α) :
+    optAll l = some r ↔ l = r.map some := by
+  induction l generalizing r with
+  | nil => cases r <;> simp [optAll]
+  | cons a t ih =>
+    cases a with
+    | none => cases r <;> simp [optAll]
+    | some x =>
+      simp only [optAll, Option.map_eq_some_iff]
+      constructor
+      · rintro ⟨r', hr', rfl⟩
+        rw [(ih r').mp hr']; rfl
+      · intro h
+        cases r with
+        | nil => simp at h
+        | cons y r' =>
+          simp only [List.map_cons, List.cons.injEq, Option.some.injEq] at h
+          exact ⟨r', (ih r').mpr h.2, by rw [h.1]⟩
+
+theorem optAll_eq_none {α : Type} (l : List (Option α)) : optAll l = none ↔ none ∈ l := by
+  induction l with
+  | nil => simp [optAll]
+  | cons a t ih =>
+    cases a with
+    | none => simp [optAll]
+    | some x => simp [optAll, ih]
+
+end irrdeep
+end C15
+
+section irrdeep
+variable {F : Type} [LinearOrder F]
+
+/-- **the constructor establishes sortedness** (the hypothesis of all irregular-grid theorems): an
+accepted array is stored as it is and is strictly increasing; any other array is refused. -/
+theorem c15_irregular_ctor_sorted (arr : List F) :
+    (∀ g, mkIrr arr = some g → g = arr ∧ g.Pairwise (· < ·)) ∧
+      (mkIrr arr = none ↔ ¬ arr.Pairwise (· < ·)) := by
+  unfold mkIrr
+  constructor
+  · intro g h
+    split_ifs at h with hs
+    simp only [Option.some.injEq] at h
+    subst h
+    exact ⟨rfl, (C15.strictlyIncreasing_iff _).mp hs⟩
+  · split_ifs with hs
+    · simp [(C15.strictlyIncreasing_iff _).mp hs]
+    · simp only [true_iff]
+      intro h
+      exact hs ((C15.strictlyIncreasing_iff _).mpr h)
+
+/-- **checked lower rounding** (fixed code): no answer exactly when no grid point is `≤ value` —
+never the last grid point through a negative index — and otherwise the answer of `irrLower`,
+i.e. the greatest member `≤ value` (`c15_irregular_lower`). -/
+theorem c15_irregular_lower_checked (g : List F) (hs : g.Pairwise (· < ·)) (v : F) :
+    (irrLowerC g v = none ↔ ∀ a ∈ g, v < a) ∧
+      ((∃ a ∈ g, a ≤ v) → irrLowerC g v = irrLower g v) := by
+  have hcl := C15.ssRight_le_length g v
+  constructor
+  · unfold irrLowerC
+    simp only []
+    constructor
+    · intro h a ha
+      obtain ⟨i, hi, rfl⟩ := List.getElem_of_mem ha
+      by_contra hc
+      have := (C15.getElem_le_iff g hs v i hi).mp (not_lt.mp hc)
+      split_ifs at h with h0
+      · omega
+      · have hlt : ssRight g v - 1 < g.length := by omega
+        simp [hlt] at h
+    · intro h
+      have h0 : ssRight g v = 0 := by
+        unfold ssRight
+        rw [List.countP_eq_zero]
+        intro a ha
+        simpa using h a ha
+      rw [if_pos h0]
+  · rintro ⟨a, ha, hav⟩
+    obtain ⟨i, hi, rfl⟩ := List.getElem_of_mem ha
+    have := (C15.getElem_le_iff g hs v i hi).mp hav
+    unfold irrLowerC irrLower
+    simp only []
+    have h0 : ssRight g v ≠ 0 := by omega
+    rw [if_neg h0, if_neg h0]
+
+/-- **array arguments are all-or-nothing**: the array forms answer exactly when every element has
+an answer, and then element by element with the scalar answers (one value at or above the last
+grid point makes `round_to_upper_grid_point` raise for the whole array). -/
+theorem c15_irregular_array_all_or_nothing (g vs : List F) :
+    (irrUpperArr g vs = none ↔ ∃ v ∈ vs, irrUpper g v = none) ∧
+    (irrLowerArr g vs = none ↔ ∃ v ∈ vs, irrLowerC g v = none) ∧
+    (∀ r, irrUpperArr g vs = some r → r.map some = vs.map (irrUpper g)) ∧
+    (∀ r, irrLowerArr g vs = some r → r.map some = vs.map (irrLowerC g)) := by
+  unfold irrUpperArr irrLowerArr
+  refine ⟨?_, ?_, ?_, ?_⟩
+  · rw [C15.optAll_eq_none]; simp [eq_comm]
+  · rw [C15.optAll_eq_none]; simp [eq_comm]
+  · intro r h; exact ((C15.optAll_eq_some _ r).mp h).symm
+  · intro r h; exact ((C15.optAll_eq_some _ r).mp h).symm
+
+end irrdeep
+
+section irrextra
+variable {F : Type} [Field F] [LinearOrder F] [IsStrictOrderedRing F]
+
+/-- **irregular extension by extra bins**: a strictly increasing grid with at least two points is
+extended by the mirrored first and last spacing; the result is again strictly increasing, has two
+more points and contains every old member — so all irregular rounding theorems apply to it. -/
+theorem c15_irregular_extra_bins (g : List F) (hs : g.Pairwise (· < ·)) (h2 : 2 ≤ g.length) :
+    ∃ g', irrAddExtra g = some g' ∧ g'.Pairwise (· < ·) ∧ g'.length = g.length + 2 ∧
+      ∀ x ∈ g, x ∈ g' := by
+  obtain ⟨a, b, rest, rfl⟩ : ∃ a b rest, g = a :: b :: rest := by
+    match g, h2 with
+    | a :: b :: rest, _ => exact ⟨a, b, rest, rfl⟩
+  have hrev : ∃ z y pre, (a :: b :: rest).reverse = z :: y :: pre := by
+    have hl : 2 ≤ (a :: b :: rest).reverse.length := by simpa using h2
+    match (a :: b :: rest).reverse, hl with
+    | z :: y :: pre, _ => exact ⟨z, y, pre, rfl⟩
+  obtain ⟨z, y, pre, hr⟩ := hrev
+  have hg : a :: b :: rest = pre.reverse ++ [y, z] := by
+    have := congrArg List.reverse hr
+    simpa using this
+  refine ⟨[a - (b - a)] ++ (a :: b :: rest) ++ [z + (z - y)], ?_, ?_, by simp, ?_⟩
+  · unfold irrAddExtra; rw [hr]
+  · have hab : a < b := (List.pairwise_cons.mp hs).1 b (by simp)
+    have hyz : y < z := by
+      rw [hg] at hs
+      have := (List.pairwise_append.mp hs).2.1
+      simpa using this
+    have hzmax : ∀ x ∈ a :: b :: rest, x ≤ z := by
+      intro x hx
+      rw [hg] at hx hs
+      rcases List.mem_append.mp hx with hx | hx
+      · exact ((List.pairwise_append.mp hs).2.2 x hx z (by simp)).le
+      · simp only [List.mem_cons, List.not_mem_nil, or_false] at hx
+        rcases hx with rfl | rfl
+        · exact hyz.le
+        · exact le_refl _
+    have hamin : ∀ x ∈ a :: b :: rest, a ≤ x := by
+      intro x hx
+      rcases List.mem_cons.mp hx with rfl | hx
+      · exact le_refl _
+      · exact ((List.pairwise_cons.mp hs).1 x hx).le
+    rw [List.pairwise_append]
+    refine ⟨?_, by simp, ?_⟩
+    · rw [List.singleton_append, List.pairwise_cons]
+      refine ⟨?_, hs⟩
+      intro x hx
+      have := hamin x hx
+      linarith
+    · intro x hx w hw
+      simp only [List.mem_singleton] at hw
+      subst hw
+      rcases List.mem_append.mp hx with hx | hx
+      · simp only [List.mem_singleton] at hx
+        subst hx
+        have := hzmax a (by simp)
+        linarith
+      · have := hzmax x hx
+        linarith
+  · intro x hx
+    exact List.mem_append_left _ (List.mem_append_right _ hx)
+
+end irrextra
+
+/-! ## `np.arange` / `from_range`, the object history, the Null method -/
+
+section rangeobj
+open C15
+variable {K : Type} [Field K] [LinearOrder K] [IsStrictOrderedRing K] [FloorRing K] [RoundOps K]
+  [LawfulRoundOps K]
+
+theorem C15.ceilI_eq (x : K) : ceilI x = ⌈x⌉ := by
+  unfold ceilI
+  rw [floorI_eq, Int.floor_neg, neg_neg]
+
+/-- **`from_range` ends at the stop value** (fixed code, exact arithmetic): for `stop = start +
+m·delta` the array handed to the constructor has exactly `m+1` points `start + i·delta`, the last
+one being `stop`.  (With `np.arange(start, stop+delta, delta)` the count is `ceil` of a double that
+can exceed `m+1` by rounding — e.g. 100, 100.01, 0.001 — which no exact-arithmetic statement sees;
+the Float model and the correspondence do.) -/
+theorem c15_from_range_ends_at_stop (start δ : K) (m : ℕ) (hδ : 0 < δ) :
+    (fromRangeArr start (start + m * δ) δ).length = m + 1 ∧
+    ∀ i (hi : i < (fromRangeArr start (start + m * δ) δ).length),
+      (fromRangeArr start (start + m * δ) δ)[i] = start + i * δ := by
+  have hlen : arangeLen start (start + m * δ + δ / ofI 2) δ = m + 1 := by
+    unfold arangeLen
+    rw [ceilI_eq, ofI_eq]
+    have e : (start + m * δ + δ / ((2 : ℤ) : K) - start) / δ = m + 1 / 2 := by
+      push_cast
+      field_simp
+      ring
+    rw [e]
+    have : ⌈(m : K) + 1 / 2⌉ = m + 1 := by
+      rw [Int.ceil_eq_iff]
+      constructor <;> push_cast <;> norm_num
+    rw [this]
+    omega
+  unfold fromRangeArr arange
+  simp only [hlen, List.length_map, List.length_range, List.getElem_map, List.getElem_range, true_and]
+  intro i _
+  split_ifs with h0 h1
+  · subst h0; simp
+  · subst h1; simp
+  · rw [ofI_eq]
+    simp only [Int.ofNat_eq_natCast, Int.cast_natCast]
+    ring
+
+/-- invariant of a `ParameterGrid` object: descriptors on the decimal lattice, positive spacing, and
+the stored array is `[gp 0, …, gp m]` for the *current* descriptors -/
+def C15.ObjInv (o : PGObj K) : Prop :=
+  OnDec o.G ∧ 0 < o.G.delta ∧ ∃ m : ℕ, o.grid = (List.range (m + 1)).map fun (k : ℕ) => gp o.G (k : ℤ)
+
+/-- **the constructor's argument checks**: an accepted call yields descriptors on the decimal
+lattice with a *positive* spacing (the two hypotheses of the rounding theorems), stores the nearest
+grid points of the given array, and a number of decimals outside `0..maxDec` or a spacing that is
+not positive after rounding is refused. -/
+theorem c15_object_ctor (arr : List K) (δ0 : K) (dec : ℤ) (fd maxDec : ℕ) :
+    (∀ o, PGObj.new arr δ0 dec fd maxDec = some o →
+      OnDec o.G ∧ 0 < o.G.delta ∧ o.grid = buildGrid o.G arr ∧ 0 ≤ dec ∧ dec ≤ maxDec) ∧
+    ((dec < 0 ∨ (maxDec : ℤ) < dec) → PGObj.new arr δ0 dec fd maxDec = none) := by
+  constructor
+  · intro o h
+    unfold PGObj.new at h
+    cases hh : arr.head? with
+    | none => rw [hh] at h; simp at h
+    | some g0 =>
+      rw [hh] at h
+      simp only [] at h
+      unfold mkGridChecked at h
+      by_cases h1 : dec < 0 ∨ (maxDec : ℤ) < dec
+      · rw [if_pos h1] at h; simp at h
+      · rw [if_neg h1] at h
+        simp only [] at h
+        by_cases h2 : ofI 0 < (mkGrid g0 δ0 dec.toNat fd).delta
+        · rw [if_pos h2] at h
+          simp only [Option.some.injEq] at h
+          subst h
+          refine ⟨mkGrid_onDec _ _ _ _, ?_, rfl, by omega, by omega⟩
+          simpa using h2
+        · rw [if_neg h2] at h; simp at h
+  · intro h
+    unfold PGObj.new
+    cases arr.head? with
+    | none => rfl
+    | some g0 =>
+      simp only []
+      unfold mkGridChecked
+      rw [if_pos h]
+
+/-- … and for the standard input (equidistant array, first value and spacing with at most `dec`
+decimals) the object satisfies the full invariant -/
+theorem c15_object_ctor_inv (a b : ℤ) (dec fd maxDec : ℕ) (m : ℕ) (hb : 0 < b) (hdec : dec ≤ maxDec) :
+    ∃ o, PGObj.new ((List.range (m + 1)).map fun (k : ℕ) => (a : K) / 10 ^ dec + k * ((b : K) / 10 ^ dec))
+      ((b : K) / 10 ^ dec) dec fd maxDec = some o ∧ ObjInv o := by
+  have hp := p10_pos (K := K) dec
+  obtain ⟨hlb, hdl, _, hgrid⟩ := c15_constructor_grid_exact (K := K) a b dec fd (m + 1) hb.ne'
+  have hdpos : (0 : K) < (mkGrid ((a : K) / 10 ^ dec) ((b : K) / 10 ^ dec) dec fd).delta := by
+    rw [hdl]
+    exact div_pos (by exact_mod_cast hb) hp
+  refine ⟨⟨mkGrid ((a : K) / 10 ^ dec) ((b : K) / 10 ^ dec) dec fd, _⟩, ?_, mkGrid_onDec _ _ _ _, hdpos, m, hgrid⟩
+  unfold PGObj.new
+  have hh : ((List.range (m + 1)).map fun (k : ℕ) => (a : K) / 10 ^ dec + k * ((b : K) / 10 ^ dec)).head?
+      = some ((a : K) / 10 ^ dec) := by
+    rw [List.range_succ_eq_map]; simp
+  rw [hh]
+  simp only []
+  unfold mkGridChecked
+  rw [if_neg (by push Not; constructor <;> omega)]
+  simp only [Int.toNat_natCast]
+  rw [if_pos (by simpa using hdpos)]
+  rfl
+
+/-- **extension keeps the invariant** -/
+theorem c15_object_extra_inv (o : PGObj K) (h : ObjInv o) :
+    ∃ o', o.step .extra = some o' ∧ ObjInv o' := by
+  obtain ⟨hG, hd, m, hg⟩ := h
+  obtain ⟨hG', hadd⟩ := c15_extra_bins o.G hG hd.ne' m
+  refine ⟨⟨{ o.G with lb := o.G.lb - o.G.delta },
+    (List.range (m + 3)).map fun (k : ℕ) => gp { o.G with lb := o.G.lb - o.G.delta } (k : ℤ)⟩,
+    ?_, hG', hd, m + 2, rfl⟩
+  unfold PGObj.step
+  rw [hg, hadd]
+  rfl
+
+/-- **object history, extensions only** (refinement over arbitrary histories): after any number of
+`add_extra_lower_and_upper_bin` calls the object still satisfies the invariant, so every rounding
+theorem (membership, lower/upper/nearest relations) applies to the object as it is *then*. -/
+theorem c15_object_history_partial (o : PGObj K) (h : ObjInv o) (ops : List (PGOp K))
+    (hops : ∀ op ∈ ops, op = PGOp.extra) : ObjInv (o.run ops) := by
+  induction ops generalizing o with
+  | nil => exact h
+  | cons op rest ih =>
+    have hop := hops op (by simp)
+    subst hop
+    obtain ⟨o', ho', hinv⟩ := c15_object_extra_inv o h
+    unfold PGObj.run
+    rw [ho']
+    exact ih o' hinv (fun op hop => hops op (by simp [hop]))
+
+end rangeobj
+
+/-- the full claim "the invariant survives *every* public operation" … -/
+def c15_object_history_statement : Prop :=
+  ∀ (o : PGObj ℚ) (ops : List (PGOp ℚ)), C15.ObjInv o → C15.ObjInv (o.run ops)
+
+/-- … is false for the code: the public `lower_bound` setter moves the descriptors and leaves the
+stored array alone.  Witness: grid `[0, 1, 2]` (one decimal), `obj.lower_bound = 0.5`: the grid
+points are now `0.5 + k`, the array still `[0, 1, 2]`, and `round_to_nearest_grid_point(1.2)`
+returns `1.5`, not a member of `obj.grid`.  Recorded as an open finding (the setters are outside
+the property's quantifier "grids as constructed, also after extension"). -/
+theorem c15_object_history_counterexample : ¬ c15_object_history_statement := by
+  intro h
+  let o : PGObj ℚ := ⟨⟨0, 1, 1, 9⟩, [0, 1, 2]⟩
+  have hG : C15.OnDec o.G := ⟨0, 10, by simp [o], by simp [o]⟩
+  have hd : (0 : ℚ) < o.G.delta := by norm_num [o]
+  have hinv : C15.ObjInv o := by
+    refine ⟨hG, hd, 2, ?_⟩
+    simp only [List.range_succ, List.range_zero, List.nil_append, List.cons_append, List.map_cons,
+      List.map_nil, C15.gp_exact o.G hG]
+    norm_num [o]
+  obtain ⟨hG', _, m, hg⟩ := h o [PGOp.setLowerBound (1 / 2)] hinv
+  have hlb : (o.run [PGOp.setLowerBound (1 / 2)]).G.lb = 1 / 2 := by
+    show aroundDec 1 (1 / 2 : ℚ) = 1 / 2
+    have := C15.aroundDec_lattice (K := ℚ) 1 5
+    norm_num at this ⊢
+    exact this
+  have hgrid : (o.run [PGOp.setLowerBound (1 / 2)]).grid = [0, 1, 2] := rfl
+  rw [hgrid, List.range_succ_eq_map] at hg
+  simp only [List.map_cons, List.cons.injEq] at hg
+  have h0 := hg.1
+  rw [C15.gp_exact _ hG', hlb] at h0
+  norm_num at h0
